@@ -272,12 +272,22 @@ Definition dec_bcase (c : sx) : option (Z * Z * bool * list brule * facts * list
     which every field is assigned by at most one rule (flag det: the outcome does not depend on the
     iteration order of the candidate hash set); the second component (-997) tells the comparison that
     the details observed by the harness (facts before and after) are not predicted *)
+(** the root candidates of a goal on a dotted field include every rule that assigns ANY field of the same object (byobj), tried in
+    hash-set order: the facts a proof leaves behind are only predictable when no two rules assign fields of one object *)
+Definition rule_objs (r : brule) : list str :=
+  flat_map (fun kv => match object_part (fst kv) with Some o => [o] | None => [] end) (br_sets r).
+Fixpoint obj_unique (rs : list brule) : bool :=
+  match rs with
+  | [] => true
+  | r :: rest => forallb (fun o => forallb (fun r' => negb (existsb (str_eqb o) (rule_objs r'))) rest) (rule_objs r) && obj_unique rest
+  end.
+
 Definition run_sx (c : sx) : sx :=
   match dec_bcase c with
   | Some (strategy, md, det, rs, f, ops) =>
       (* a single query's verdict never depends on the candidate order: the root candidates are tried from the same
          facts and the first success wins; in a history the facts handed back do depend on it *)
-      if (strategy =? 1) || negb (det || (Nat.leb (length ops) 1)) then L [A (-998)]
+      if (strategy =? 1) || negb ((det && obj_unique rs) || (Nat.leb (length ops) 1)) then L [A (-998)]
       else L [L (run_ops rs strategy md {| memo := [] |} f ops); L [A (-997)]]
   | None => sx_bad end.
 
